@@ -1,6 +1,7 @@
 package props
 
 import (
+	"bytes"
 	"errors"
 	"fmt"
 	"math"
@@ -38,7 +39,10 @@ func c16Run(c *vk.Ctx) {
 			return
 		}
 	}
-	c16AfterExpiry(c, r)
+	if !c16AfterExpiry(c, r) {
+		return
+	}
+	c16LargestDatagrams(c, r)
 }
 
 // c16AfterExpiry: a client whose association has expired sends again: the datagram is forwarded
@@ -99,6 +103,76 @@ func c16AfterExpiry(c *vk.Ctx, r *rand.Rand) bool {
 		}
 		cl.Close()
 		c.Count("expiry_cycles_reported", 3)
+	}
+	return true
+}
+
+// c16LargestDatagrams: client datagrams at the very top of the size range (65507 bytes over
+// IPv4, up to 65527 over IPv6) on live associations: forwarded intact and reported with their
+// wire size and payload size.
+func c16LargestDatagrams(c *vk.Ctx, r *rand.Rand) bool {
+	keys := RandKeys(r, 3, nil, 0)
+	rig := StartUDPRig(keys, UDPRigOpts{NatTimeout: 30 * time.Second})
+	defer rig.Close(5 * time.Second)
+	tgt, err := startUDPTarget("big", net.IPv4(45, 69, byte(c.Batch), 10).To4(), 7001)
+	if err != nil {
+		return true
+	}
+	defer tgt.Stop()
+	for ci, fam := range []string{"v4", "v6"} {
+		k := keys[r.Intn(len(keys))]
+		ip, server, wires := net.IPv4(198, 51, 100, 160).To4(), rig.Addr4(), []int{65000, 65506, 65507}
+		if fam == "v6" {
+			ip, server, wires = net.ParseIP(fmt.Sprintf("2001:db8:c16::%x", 1+ci)), rig.Addr6(), []int{65507, 65508, 65520, 65527}
+		}
+		cl, err := newUDPClient(ip, 0, k)
+		if err != nil {
+			c.Inconclusive("largest datagrams: " + err.Error())
+			continue
+		}
+		overhead := k.Codec().C.SaltSize + 16 + len(tgt.addr())
+		id0 := nextID(c.Batch)
+		cl.Send(ssUDP(k, randBytes(r, k.Codec().C.SaltSize), tgt.addr(), mkUDPPayload(id0, 0, 0, 20)), server)
+		if _, ok := tgt.waitID(id0, udpB); !ok {
+			c.Violation("C16/valid-datagram-neither-forwarded-nor-failed", map[string]any{"phase": "largest datagrams", "family": fam})
+			cl.Close()
+			return false
+		}
+		for _, wire := range wires {
+			id := nextID(c.Batch)
+			payload := mkUDPPayload(id, 0, 0, wire-overhead)
+			pkt := ssUDP(k, randBytes(r, k.Codec().C.SaltSize), tgt.addr(), payload)
+			if err := cl.Send(pkt, server); err != nil {
+				c.Note("cannot send a %d-byte datagram over %s: %v", len(pkt), fam, err)
+				continue
+			}
+			c.Eval(fmt.Sprintf("largest|%s|wire=%d", fam, wire))
+			g, ok := tgt.waitID(id, udpB)
+			as := rig.Rec.ByClient(cl.Addr.String())
+			var reps []udpPktEv
+			if len(as) == 1 {
+				for dl := time.Now().Add(udpB); time.Now().Before(dl); time.Sleep(time.Millisecond) {
+					reps = as[0].Snap().FromClient
+					if len(reps) > 0 && reps[len(reps)-1].A >= 65000 && (ok || reps[len(reps)-1].Status != "OK") {
+						break
+					}
+				}
+			}
+			wit := map[string]any{"family": fam, "wire_bytes_sent": len(pkt), "payload_bytes": len(payload), "cipher": k.Cipher, "forwarded": ok, "reports": fmt.Sprintf("%+v", reps[max(0, len(reps)-2):])}
+			if !ok || !bytes.Equal(g.Data, payload) {
+				c.Violation("C16/valid-datagram-neither-forwarded-nor-failed", wit)
+				cl.Close()
+				return false
+			}
+			last := reps[len(reps)-1]
+			if last.Status != "OK" || last.A != int64(len(pkt)) || last.B != int64(len(payload)) {
+				c.Violation("C16/client-datagram-wire-size", wit)
+				cl.Close()
+				return false
+			}
+			c.Count("largest_client_datagrams_reported_exactly_"+fam, 1)
+		}
+		cl.Close()
 	}
 	return true
 }
@@ -359,7 +433,7 @@ func c16Round(c *vk.Ctx, r *rand.Rand, round int) bool {
 		}
 		// learn the outbound port from the last OK datagram: ask target 0 for a reply of a huge size
 		id := nextID(c.Batch)
-		big := pick(r, []int{65460, 65469, 65470, 65485, 65507})
+		big := pick(r, []int{65456, 65457, 65460, 65469, 65470, 65485, 65486, 65494, 65507})
 		payload := mkUDPPayload(id, 1, big, nextSize())
 		pkt := ssUDP(cc.cl.Key, randBytes(r, cc.cl.Key.Codec().C.SaltSize), w.targets[0].addr(), payload)
 		nW, _ := countWrites(cc.sock)
@@ -382,6 +456,32 @@ func c16Round(c *vk.Ctx, r *rand.Rand, round int) bool {
 		}
 		c.Eval(fmt.Sprintf("reply|oversized=%d", big))
 		c.Count("oversized_replies_sent", 1)
+		// the target's answer (big bytes, sent at once) is reported with ITS size, relayed or not
+		if len(w.targets[0].findID(id)) > 0 {
+			a := as[len(as)-1]
+			found := false
+			var sizes []int64
+			for dl := time.Now().Add(udpB); !found && time.Now().Before(dl); time.Sleep(time.Millisecond) {
+				sizes = sizes[:0]
+				for _, e := range a.Snap().FromTarget {
+					sizes = append(sizes, e.A)
+					found = found || e.A == int64(big)
+				}
+				// a report for it exists once a payload of at least 65000 bytes shows up
+				big1 := false
+				for _, sz := range sizes {
+					big1 = big1 || sz >= 65000
+				}
+				if big1 && !found {
+					break
+				}
+			}
+			if !found {
+				c.Violation("C16/target-datagram-payload-size-misreported", map[string]any{"target_sent_bytes": big, "payload_sizes_reported_for_this_association": sizes, "cipher": cc.cl.Key.Cipher})
+				return false
+			}
+			c.Count("oversized_reply_sizes_reported_exactly", 1)
+		}
 	}
 	// let the replies drain, then shut down: every association is expired by the shutdown
 	if !fence() {
@@ -574,7 +674,7 @@ func init() {
 		Parallel:    func(t string) int { return 4 },
 		Timeout:     func(t string) time.Duration { return 25 * time.Minute },
 		Run: func(c *vk.Ctx) {
-			for _, s := range []string{"client_datagram_reports_checked", "reply_reports_checked", "audits_passed", "failed_reply_reports", "oversized_replies_sent", "dns_single_query_clients", "expiry_cycles_reported", "datagrams_from_unaddressed_endpoints", "socket_reads_vs_reports_checked"} {
+			for _, s := range []string{"client_datagram_reports_checked", "reply_reports_checked", "audits_passed", "failed_reply_reports", "oversized_replies_sent", "dns_single_query_clients", "expiry_cycles_reported", "datagrams_from_unaddressed_endpoints", "socket_reads_vs_reports_checked", "oversized_reply_sizes_reported_exactly", "largest_client_datagrams_reported_exactly_v4", "largest_client_datagrams_reported_exactly_v6"} {
 				c.Require(s)
 			}
 			c16Run(c)
